@@ -269,7 +269,7 @@ struct Run {
   std::string msg;
   std::mutex m;
   bool budget_hit = false;
-  uint64_t free_yield_limit = 20000000;
+  uint64_t free_yield_limit = 3000000;
   std::vector<int64_t> trace; // (thread, value) pairs in global order
 
   void init(int eng, int n) {
@@ -2209,6 +2209,7 @@ int main(int argc, char **argv) {
        "happened strictly inside one container call AND the pool reached its "
        "capacity.",
        {{"interleaved-inside-one-call", 0.5},
+        {"refusal-seen", 0.04},
         {"pool-reached-capacity", 0.3},
         {"cursor-wrapped", 0.3},
         {"sequential-spec-checked-solo", 0.3}}});
